@@ -1,6 +1,7 @@
 package main
 
 import (
+	"fmt"
 	"go/ast"
 	"go/token"
 	"go/types"
@@ -105,6 +106,41 @@ func ruleC05MapOrder(c *Ctx, r *Rep) {
 			r.OK(key, s.rs.Pos(), "order-insensitive shape %s: %s", shape, why)
 		} else {
 			r.Bad(key, s.rs.Pos(), "range over a map whose body depends on Go's map iteration order: %s", why)
+		}
+	}
+	// the iterator constructors of package maps are ranges over a map in disguise: accepted only as the direct argument
+	// of a sorting collector (slices.Sorted, slices.SortedFunc, slices.SortedStableFunc)
+	for _, p := range []*packages.Package{c.Gojq, c.Cli} {
+		if p == nil {
+			continue
+		}
+		info := p.TypesInfo
+		for _, fd := range c.Decls(p) {
+			if c.PhysFile(fd.Pos()) == "parser.go" {
+				continue
+			}
+			k := 0
+			walkStack(fd.Body, func(m ast.Node, stack []ast.Node) bool {
+				call, ok := m.(*ast.CallExpr)
+				if !ok {
+					return true
+				}
+				nm := calleeName(info, call)
+				if nm != "maps.Values" && nm != "maps.Keys" && nm != "maps.All" {
+					return true
+				}
+				k++
+				sorted := false
+				if len(stack) > 0 {
+					if outer, ok := stack[len(stack)-1].(*ast.CallExpr); ok {
+						if on := calleeName(info, outer); strings.HasPrefix(on, "slices.Sorted") {
+							sorted = true
+						}
+					}
+				}
+				r.Check(sorted, fmt.Sprintf("%s:%s#%d", declKey(fd), nm, k), call.Pos(), "%s in %s yields the map's entries in Go's map iteration order; it is the direct argument of a sorting collector: %v — summing the values of an object in that order makes `{\"a\":0.1,\"b\":0.2,\"c\":0.3} | add` vary between runs (float addition is not associative)", nm, declKey(fd), sorted)
+				return true
+			})
 		}
 	}
 }
